@@ -51,13 +51,15 @@ pub enum Op<T> {
     BFinish,
     ParHash(usize, usize),
     ParMix(usize, Vec<T>),
+    /// Arm the fault countdown of the `fu64` kind (a no-op for every other kind).
+    Fault(usize),
 }
 
 fn arity(name: &str) -> Option<usize> {
     Some(match name {
         "b_finish" => 0,
         "empty" | "default_vec" | "len" | "ssz_enc" | "serde_ser" | "apply" | "intra" | "hash"
-        | "drop" | "b_push" => 1,
+        | "drop" | "b_push" | "fault" => 1,
         "new_list" | "new_vec" | "list_slow" | "vec_iter" | "from_elem" | "ssz_list"
         | "ssz_vec" | "serde_list" | "serde_vec" | "get" | "iter_from" | "level_iter" | "eq"
         | "touch" | "cow_read" | "iter_cow" | "push" | "bulk" | "pop_front"
@@ -173,6 +175,7 @@ pub fn parse_op<T: Elem>(line: &str) -> Result<Op<T>, String> {
         "b_finish" => Op::BFinish,
         "par_hash" => Op::ParHash(reg(0)?, int(1)?),
         "par_mix" => Op::ParMix(reg(0)?, vs(1)?),
+        "fault" => Op::Fault(int(0)?),
         _ => unreachable!("arity() knows every operation"),
     })
 }
